@@ -170,7 +170,75 @@ func (w *World) Token(client, secret string, form url.Values) (fosite.AccessResp
 	if err != nil {
 		return nil, err
 	}
+	if ar.GetGrantTypes().ExactOne("password") || ar.GetGrantTypes().ExactOne("client_credentials") {
+		// the application grants what was requested (and validated) in these flows
+		for _, s := range ar.GetRequestedScopes() {
+			ar.GrantScope(s)
+		}
+	}
 	return w.Provider.NewAccessResponse(w.Ctx, ar)
+}
+
+func (w *World) Password(client string, scopes []string) (fosite.AccessResponder, error) {
+	return w.Token(client, "", url.Values{
+		"grant_type": {"password"},
+		"username":   {"peter"},
+		"password":   {"pw-peter"},
+		"scope":      {strings.Join(scopes, " ")},
+	})
+}
+
+// ---- ledger: the harness's own record of every token it was handed
+
+type Tok struct {
+	Val      string
+	Use      fosite.TokenUse
+	Grant    int
+	Gen      int  // generation within the grant (0 = first pair)
+	Live     bool // not rotated away / revoked / killed, as far as the specification says
+	TE       bool // issued by the token endpoint
+	IssuedAt time.Time
+	Lifespan time.Duration
+}
+
+type Ledger struct {
+	Toks []*Tok
+}
+
+func (l *Ledger) Add(val string, use fosite.TokenUse, grant, gen int, te bool, lifespan time.Duration) *Tok {
+	t := &Tok{Val: val, Use: use, Grant: grant, Gen: gen, Live: true, TE: te, IssuedAt: time.Now(), Lifespan: lifespan}
+	l.Toks = append(l.Toks, t)
+	return t
+}
+
+// KillGrant marks every token-endpoint-issued token of the grant dead.
+func (l *Ledger) KillGrant(grant int) {
+	for _, t := range l.Toks {
+		if t.Grant == grant && t.TE {
+			t.Live = false
+		}
+	}
+}
+
+func (l *Ledger) Find(val string) *Tok {
+	for _, t := range l.Toks {
+		if t.Val == val {
+			return t
+		}
+	}
+	return nil
+}
+
+// Expiry classifies a token's age: -1 surely unexpired, +1 surely expired, 0 within 2s of the boundary.
+func (t *Tok) Expiry(now time.Time) int {
+	exp := t.IssuedAt.Add(t.Lifespan)
+	if now.Before(exp.Add(-2 * time.Second)) {
+		return -1
+	}
+	if now.After(exp.Add(2 * time.Second)) {
+		return 1
+	}
+	return 0
 }
 
 func (w *World) Redeem(client, code string) (fosite.AccessResponder, error) {
